@@ -21,6 +21,11 @@
  */
 
 #include "nlopt-util.h"
+#include "nlopt-verif.h"
+
+#ifdef NLOPT_VERIF
+nlopt_verif_hooks_t nlopt_verif_hooks = { 0, 0, 0, 0, 0, 0 };
+#endif
 
 #ifdef TIME_WITH_SYS_TIME
 # include <sys/time.h>
@@ -41,6 +46,10 @@
 double nlopt_seconds(void)
 {
     static THREADLOCAL int start_inited = 0;    /* whether start time has been initialized */
+#ifdef NLOPT_VERIF
+    if (nlopt_verif_hooks.seconds)
+        return nlopt_verif_hooks.seconds();
+#endif
 #if defined(HAVE_GETTIMEOFDAY)
     static THREADLOCAL struct timeval start;
     struct timeval tv;
@@ -77,6 +86,10 @@ double nlopt_seconds(void)
 /* number based on time for use as random seed */
 unsigned long nlopt_time_seed(void)
 {
+#ifdef NLOPT_VERIF
+    if (nlopt_verif_hooks.time_seed)
+        return nlopt_verif_hooks.time_seed();
+#endif
 #if defined(HAVE_GETTIMEOFDAY)
     struct timeval tv;
     gettimeofday(&tv, NULL);
